@@ -565,6 +565,75 @@ example :
     examineConnectError (fun _ _ _ => none) (.obj doc) = [.dupKey] ∧
     examineConnectEndStream (fun _ _ _ => none) (.obj [(bs "error", .obj doc)]) = [.dupKey] := by decide
 
+/-- duplicate detection is PER OBJECT: the examiner model flags a document for a duplicate key
+iff it is an object that decodes into the struct and SOME object in it, at whatever depth, has one
+key twice (`HasRepeatedKey`: no path, no comparison of keys of different objects) -/
+theorem dup_keys_per_object (fieldOK : Bytes → ConnectJson.Json → Bool) (doc : ConnectJson.Json) :
+    (dupFree doc = false ↔ HasRepeatedKey doc) ∧
+    (examineJSON fieldOK doc = .error .dupKey ↔
+      ∃ fs, doc = .obj fs ∧ fs.all (fun kv => fieldOK kv.1 kv.2) = true ∧ HasRepeatedKey doc) := by
+  refine ⟨dupFree_false_iff_hasRepeatedKey doc, ?_⟩
+  constructor
+  · intro h
+    cases doc with
+    | obj fs =>
+      by_cases ha : fs.all (fun kv => fieldOK kv.1 kv.2) = true
+      · by_cases hd : dupFree (.obj fs) = true
+        · simp [examineJSON, typedObject, ha, hd] at h
+        · exact ⟨fs, rfl, ha, (dupFree_false_iff_hasRepeatedKey _).mp (by simpa using hd)⟩
+      · simp [examineJSON, typedObject, ha] at h
+    | null => simp [examineJSON, typedObject] at h
+    | bool _ => simp [examineJSON, typedObject] at h
+    | num => simp [examineJSON, typedObject] at h
+    | str _ => simp [examineJSON, typedObject] at h
+    | arr _ => simp [examineJSON, typedObject] at h
+  · rintro ⟨fs, rfl, ha, hr⟩
+    have hd := (dupFree_false_iff_hasRepeatedKey _).mpr hr
+    simp [examineJSON, typedObject, ha, hd]
+
+/-- in particular a document whose objects all have distinct keys is never flagged for a
+duplicate key, WHATEVER the key strings are, and one with a repeated key in some object is,
+by each examiner, with exactly that message -/
+theorem distinct_keys_never_flagged (fieldOK : Bytes → ConnectJson.Json → Bool) (doc : ConnectJson.Json)
+    (h : ¬ HasRepeatedKey doc) : dupFree doc = true ∧ examineJSON fieldOK doc ≠ .error .dupKey := by
+  refine ⟨?_, fun he => ?_⟩
+  · cases hd : dupFree doc with
+    | true => rfl
+    | false => exact absurd ((dup_keys_per_object fieldOK doc).1.mp hd) h
+  · obtain ⟨_, _, _, hr⟩ := (dup_keys_per_object fieldOK doc).2.mp he
+    exact h hr
+
+theorem repeated_key_flagged (dbg : DebugOracle) (fs : Fields) (h : HasRepeatedKey (.obj fs)) :
+    (fs.all (fun kv => errorFieldOK kv.1 kv.2) = true → examineConnectError dbg (.obj fs) = [.dupKey]) ∧
+    (fs.all (fun kv => endFieldOK kv.1 kv.2) = true → examineConnectEndStream dbg (.obj fs) = [.dupKey]) :=
+  let r := json_duplicate_key_flagged dbg fs ((dup_keys_per_object errorFieldOK _).1.mpr h)
+  ⟨r.1, r.2.1⟩
+
+/-- non-vacuity, both ways: the free-form debug value `[{"a.b":"flat","a":{"b":"nested"}}]` (two
+DIFFERENT members whose rendered path is the same) has no repeated key and the error document
+holding it is examined without a duplicate-key message; the document-wide path set (counter-model,
+not the code) flags it; a real repetition of `a` in the same place is flagged by both -/
+example :
+    let dbgv : ConnectJson.Json := .arr [.obj [(bs "a.b", .str (bs "flat")), (bs "a", .obj [(bs "b", .str (bs "nested"))])]]
+    let dup : ConnectJson.Json := .arr [.obj [(bs "a.b", .str (bs "flat")), (bs "a", .obj [(bs "b", .str (bs "nested"))]), (bs "a", .num)]]
+    let doc (d : ConnectJson.Json) : Fields := [(bs "code", .str (bs "internal")), (bs "details", .arr [.obj [(bs "type", .str (bs "google.protobuf.ListValue")),
+      (bs "value", .str (bs "QQ")), (bs "debug", d)]])]
+    dupFree (.obj (doc dbgv)) = true ∧ examineConnectError (fun _ _ _ => none) (.obj (doc dbgv)) = [] ∧
+    pathSetFlags [] (.obj (doc dbgv)) = true ∧
+    keyPaths [] (.obj (doc dbgv)) = [bs "code", bs "details", bs "details[0].type", bs "details[0].value",
+      bs "details[0].debug", bs "details[0].debug[0].a.b", bs "details[0].debug[0].a", bs "details[0].debug[0].a.b"] ∧
+    dupFree (.obj (doc dup)) = false ∧ examineConnectError (fun _ _ _ => none) (.obj (doc dup)) = [.dupKey] ∧
+    pathSetFlags [] (.obj (doc dup)) = true := by decide
+
+/-- the rendered path cannot stand for the member: a set keyed by it, shared by the whole document,
+flags a document in which no object has a repeated key (so it is not `checkNoDuplicateKeys`) -/
+theorem path_set_witness : ∃ doc : ConnectJson.Json, ¬ HasRepeatedKey doc ∧ pathSetFlags [] doc = true :=
+  ⟨.obj [(bs "a.b", .num), (bs "a", .obj [(bs "b", .num)])],
+   fun h => by
+     have := (dup_keys_per_object (fun _ _ => true) _).1.mpr h
+     revert this; decide,
+   by decide⟩
+
 /-- missing `code` -/
 theorem json_missing_code_flagged (dbg : DebugOracle) (fs : Fields) (hp : passesJSON errorFieldOK fs = true)
     (h : hasKey fs jkCode = false) : CFb.missingCode ∈ examineConnectError dbg (.obj fs) :=
